@@ -36,7 +36,7 @@ From RU Require Import Base.Prelude Base.Utf8 Base.Utf8Facts Model.AsciiSet Gen.
   Proofs.C03_WF Proofs.C06_List Proofs.C06_WFI Proofs.C06_Tail
   Proofs.C08_Input Proofs.C08_Simple Proofs.C08_Contain Proofs.C08_NoAuth Proofs.C08_Absolute Proofs.C08_Relative Proofs.C08_RelEval
   Proofs.C08_RelPath Proofs.C08_RelJoin Proofs.C08_RelMr Proofs.C08_RelLaw Proofs.C08_RelCanon Proofs.C08_RelNoAuth
-  Proofs.C02_AuthParts Proofs.C02_Auth Proofs.C02_AuthSp Proofs.C02_AuthMain Proofs.C08_AbsNonfile Proofs.C08_RelAuth.
+  Proofs.C02_AuthParts Proofs.C02_Auth Proofs.C02_AuthSp Proofs.C02_AuthMain Proofs.C08_AbsNonfile Proofs.C08_RelAuth Proofs.C08_RelRecog.
 From RU Require Properties.C02.
 Open Scope N_scope.
 Open Scope list_scope.
@@ -407,6 +407,32 @@ Theorem C08_relative_canon_forms : forall dbg hp hpo hd, HostRT hp hpo hd ->
   join dbg hp hpo hd b r = POk t.
 Proof. intros dbg hp hpo hd HRT b t r. exact (relative_canon_forms dbg hp hpo hd b t r HRT). Qed.
 Print Assumptions C08_relative_canon_forms.
+
+(* the computable domain rel_canon of C08_relative_canon is COMPLETE on parse results: every pair of non-file
+   parse results inside MR_ok passes the test (hier_canon, rel_base_ok, rel_target_ok, main_eqb all answer true) -
+   C02's canonical forms imply C08's recognisers.  The length premise is rel_target_ok's bound on the whole
+   target (C02's forms bound the stored offsets only). *)
+Theorem C08_rel_canon_parsed : forall dbg hp hpo hd, HostRT hp hpo hd -> host_above hp hpo hd ->
+  forall bi ti b t, usv_list bi -> usv_list ti ->
+  nonfile_input bi = true -> nonfile_input ti = true ->
+  parse_url dbg hp hpo hd None None bi = POk b -> parse_url dbg hp hpo hd None None ti = POk t ->
+  mr_ok b t = true -> nlen (ser t) <= U32_MAX_P -> rel_canon b t = true.
+Proof. intros dbg hp hpo hd HRT HAb bi ti b t. exact (parsed_rel_canon hp hpo hd HRT dbg bi ti b t HAb). Qed.
+Check C08_rel_canon_parsed : forall dbg hp hpo hd, HostRT hp hpo hd -> host_above hp hpo hd ->
+  forall bi ti b t, usv_list bi -> usv_list ti ->
+  nonfile_input bi = true -> nonfile_input ti = true ->
+  parse_url dbg hp hpo hd None None bi = POk b -> parse_url dbg hp hpo hd None None ti = POk t ->
+  mr_ok b t = true -> nlen (ser t) <= U32_MAX_P ->
+  (hier_canon b && hier_canon t && rel_base_ok b && rel_target_ok (b_st b) t && main_eqb b t && mr_ok b t) = true.
+Print Assumptions C08_rel_canon_parsed.
+(* per record: C02's canonical record with authority and a non-empty path passes the three recognisers *)
+Theorem C08_canon_recognised : forall hp hpo hd st sch ui h pt segs last q f, st_is_file st = false ->
+  auth_ok hp hpo hd st sch ui h pt (Some (segs, last)) q f ->
+  let u := auth_url hd sch ui h pt (Some (segs, last)) q f in
+  hier_canon u = true /\ rel_base_ok u = true /\ b_st u = st
+  /\ ((st = STSpecialNotFile -> pth_ok_sp (Some (segs, last))) -> nlen (ser u) <= U32_MAX_P -> rel_target_ok st u = true).
+Proof. exact auth_recognised. Qed.
+Print Assumptions C08_canon_recognised.
 
 (* non-vacuity: with the host functions of C02_host_hypotheses_inhabited, five pairs of inputs of the class
    ("HTTP:\\..\a\d\.\e" is read as http://../a/d/e) whose parse results are inside MR_ok, the reference
